@@ -376,6 +376,37 @@ def c02_corollaries(rep, tier):
         return Pop.PopVerify(pk, sig)
     scenario("message signature on the key presented as a possession proof", sig_as_pop)
 
+    def sig_as_pop_after(ctx, W):
+        sk, pk = honest_key(Pop, W)
+        h1 = W.hash_to_G2(pk, Pop.DST, Pop.xmd_hash_function).k
+        h2 = W.hash_to_G2(pk, Pop.POP_TAG, Pop.xmd_hash_function).k
+        prime_lemma(ctx, h1 - h2, sk.t, rep)
+        sig = Pop.Sign(sk, pk)
+        bool(Pop.Verify(pk, pk, sig))          # the legitimate check first: its answer must not be remembered across tags
+        return Pop.PopVerify(pk, sig)
+    scenario("message signature on the key presented as a possession proof AFTER its legitimate verification", sig_as_pop_after)
+
+    def pop_as_sig_after(ctx, W):
+        sk, pk = honest_key(Pop, W)
+        h1 = W.hash_to_G2(pk, Pop.DST, Pop.xmd_hash_function).k
+        h2 = W.hash_to_G2(pk, Pop.POP_TAG, Pop.xmd_hash_function).k
+        prime_lemma(ctx, h1 - h2, sk.t, rep)
+        proof = Pop.PopProve(sk)
+        bool(Pop.PopVerify(pk, proof))
+        return Pop.Verify(pk, pk, proof)
+    scenario("possession proof presented as a message signature AFTER its legitimate verification", pop_as_sig_after)
+
+    def other_suite_after(ctx, W):
+        sk, pk = honest_key(Basic, W)
+        m = SymBytes.var("m", 0, 300)
+        h1 = W.hash_to_G2(m, Basic.DST, Basic.xmd_hash_function).k
+        h2 = W.hash_to_G2(m, Pop.DST, Pop.xmd_hash_function).k
+        prime_lemma(ctx, h1 - h2, sk.t, rep)
+        sig = Basic.Sign(sk, m)
+        bool(Basic.Verify(pk, m, sig))
+        return Pop.Verify(pk, m, sig)
+    scenario("signature of the NUL suite checked by the POP suite AFTER its legitimate verification", other_suite_after)
+
     def aug_without_prefix(ctx, W):
         sk, pk = honest_key(Aug, W)
         m = SymBytes.var("m", 0, 300)
